@@ -134,3 +134,11 @@ Proof.
   destruct (0 <=? n) eqn:E0; [|lia]. cbn [andb].
   destruct (n <=? zlen r); cbn [bind]; split; reflexivity.
 Qed.
+
+(* distinct values never share an encoding (None vs [] vs [x], b"" vs absent, ...) *)
+Lemma encode_injective_top f v1 v2 bs :
+  wf_fmt f -> encode f v1 = Ok bs -> encode f v2 = Ok bs -> v1 = v2.
+Proof.
+  intros W H1 H2. pose proof (decode_encode_top f v1 bs W H1) as D1.
+  pose proof (decode_encode_top f v2 bs W H2) as D2. congruence.
+Qed.
